@@ -47,6 +47,10 @@
     copy_reorder|copy_transpose <names> TensorView::reorder / transpose (copies into a new tensor): the
                                         TensorAccess / TensorTranspose over the top, materialised
                                                                                 → ok shape=<shape> cells=<…> | reject
+    api_surface                         (harness: scans the `pub fn` / `impl … for` of the adaptor
+                                        source files and compares with what the api_* static cases
+                                        drive and the list of items left to other properties)
+                                                                                → ok ## unlisted=<items>|-
     sources                             source() / source_ref() / sources() / sources_ref() of the
                                         adaptor on top: every inner view         → shape=<shape> cells=<…> | shape=…
     length_of <name>                    TensorView::length_of / last_index_of    → length=<n>|none last=<n>|none
@@ -359,6 +363,7 @@ def step (s : State) (toks : List String) : State × String :=
       (s, "cells=" ++ (if spec = model then spec else s!"{spec} MODEL-SPEC-DISAGREE {model}"))
     | [], _ => (s, "skip")
     | _, none => (s, "bad-op")
+  | "api_surface" :: _ => (s, "ok ## unlisted=-")
   | "copy_reorder" :: namesS :: _ => (s, copyOp s true namesS)
   | "copy_transpose" :: namesS :: _ => (s, copyOp s false namesS)
   | "sources" :: _ =>
